@@ -1142,7 +1142,7 @@ class RNN(Module):
       _, (carries, outputs) = scan_output
       # seq_lengths[None] expands the shape of the mask to match the
       # number of dimensions of the carry.
-      carry = _select_last_carry(carries, seq_lengths)
+      carry = _select_last_carry(carries, seq_lengths, carry)
     else:
       carry, outputs = scan_output
 
@@ -1163,14 +1163,20 @@ class RNN(Module):
       return outputs
 
 
-def _select_last_carry(sequence: A, seq_lengths: jnp.ndarray) -> A:
+def _select_last_carry(
+  sequence: A, seq_lengths: jnp.ndarray, initial_carry: A
+) -> A:
   last_idx = seq_lengths - 1
 
-  def _slice_array(x: jnp.ndarray):
+  def _slice_array(x: jnp.ndarray, init: jnp.ndarray):
     # x has shape (time, *batch, ...) and last_idx has shape (*batch).
-    return x[(last_idx, *jnp.indices(last_idx.shape))]
+    last = x[(last_idx, *jnp.indices(last_idx.shape))]
+    # an empty sequence has no last step: its final carry is the initial one
+    # (index -1 would pick the carry after all the padding steps).
+    empty = _expand_dims_like(jnp.asarray(seq_lengths) == 0, last)
+    return jnp.where(empty, init, last)
 
-  return jax.tree_util.tree_map(_slice_array, sequence)
+  return jax.tree_util.tree_map(_slice_array, sequence, initial_carry)
 
 
 def _expand_dims_like(x, target):
